@@ -10,6 +10,7 @@ mod c08;
 mod c10;
 mod c11;
 mod c17;
+mod c18;
 mod decoders;
 mod linalg2;
 
@@ -46,6 +47,7 @@ fn main() {
         ("gen", "C08") => c08::generate(&a),
         ("gen", "C09") => c02::generate_c09(&a),
         ("gen", "C11") => c11::generate(&a),
+        ("gen", "C18") => c18::generate(&a),
         ("gen", "C17") => c17::generate(&a),
         ("replay", "C17") => c17::replay(&a),
         _ => {
